@@ -151,12 +151,34 @@ func (e *boundsEngine) eval1(v ssa.Value, at *ssa.BasicBlock, depth int) bnd {
 			}
 		}
 		return top()
+	case *ssa.Parameter:
+		// a helper's parameter that, at every call site, is strings.Index of two
+		// other arguments of the same call: -1 (or 0, when every site has
+		// established that) <= i <= len(s)
+		if ps, _, nonneg, ok := e.indexSummary(x); ok {
+			lo := int64(-1)
+			if nonneg {
+				lo = 0
+			}
+			return bnd{lo: lo, hiLen: canonLen(ps), hiK: 0}
+		}
+		return top()
 	case *ssa.Convert:
 		return e.eval(x.X, at, depth+1)
 	case *ssa.ChangeType:
 		return e.eval(x.X, at, depth+1)
 	case *ssa.BinOp:
 		if x.Op == token.ADD {
+			// the same through a helper's parameters: i + len(w) <= len(s)
+			for _, pr := range [][2]ssa.Value{{x.X, x.Y}, {x.Y, x.X}} {
+				if p, ok := stripConv(pr[0]).(*ssa.Parameter); ok {
+					if ps, pw, nonneg, ok := e.indexSummary(p); ok && nonneg {
+						if l := lenOperand(stripConv(pr[1])); l != nil && sameLen(l, pw) {
+							return bnd{lo: 0, loLen: l, hiLen: canonLen(ps), hiK: 0}
+						}
+					}
+				}
+			}
 			// strings.Index(s, w) + len(w) <= len(s) when the index is >= 0
 			for _, pr := range [][2]ssa.Value{{x.X, x.Y}, {x.Y, x.X}} {
 				if c, ok := stripConv(pr[0]).(*ssa.Call); ok && c.Call.StaticCallee() != nil && c.Call.StaticCallee().String() == "strings.Index" {
@@ -1361,4 +1383,65 @@ func (e *boundsEngine) notNaN(v ssa.Value, use *ssa.BasicBlock, depth int) bool 
 		}
 	}
 	return false
+}
+
+// indexSummary: p is a parameter of a package function that is only called
+// statically, and at every call site the argument for p is the result of
+// strings.Index(s, w) where s and w are themselves passed to the same call as
+// the arguments of two other parameters (returned as ps, pw). nonneg: at every
+// site the argument is known to be >= 0 (the "not found" case was dealt with
+// by the caller).
+func (e *boundsEngine) indexSummary(p *ssa.Parameter) (ps, pw *ssa.Parameter, nonneg, ok bool) {
+	h := p.Parent()
+	if h == nil || h.Parent() != nil || !e.w.inPkg(h) {
+		return nil, nil, false, false
+	}
+	if ob := h.Object(); ob != nil && ob.Exported() {
+		return nil, nil, false, false
+	}
+	idx := -1
+	for i, q := range h.Params {
+		if q == p {
+			idx = i
+		}
+	}
+	n := e.w.CG.Nodes[h]
+	if idx < 0 || n == nil || len(n.In) == 0 {
+		return nil, nil, false, false
+	}
+	// every caller the call graph (VTA: also through function values) knows of
+	nonneg = true
+	for _, ed := range n.In {
+		site, isCall := ed.Site.(*ssa.Call)
+		if !isCall || site.Call.IsInvoke() || idx >= len(site.Call.Args) {
+			return nil, nil, false, false
+		}
+		c, isIdx := stripConv(site.Call.Args[idx]).(*ssa.Call)
+		if !isIdx || c.Call.StaticCallee() == nil || c.Call.StaticCallee().String() != "strings.Index" {
+			return nil, nil, false, false
+		}
+		var js, jw = -1, -1
+		for j, a := range site.Call.Args {
+			if j == idx {
+				continue
+			}
+			if sameLen(a, c.Call.Args[0]) && js < 0 {
+				js = j
+			} else if sameLen(a, c.Call.Args[1]) && jw < 0 {
+				jw = j
+			}
+		}
+		if js < 0 || jw < 0 {
+			return nil, nil, false, false
+		}
+		if ps == nil {
+			ps, pw = h.Params[js], h.Params[jw]
+		} else if ps != h.Params[js] || pw != h.Params[jw] {
+			return nil, nil, false, false
+		}
+		if b := e.eval(site.Call.Args[idx], site.Block(), 1); b.lo < 0 {
+			nonneg = false
+		}
+	}
+	return ps, pw, nonneg, ps != nil
 }
